@@ -43,7 +43,19 @@ KNOBS = {
 
 
 def gen(rs: int, tier: str, index: int) -> dict:
-    s = gen_worker_script(rs, tier_knobs(KNOBS, tier, index))
+    kn = KNOBS
+    if index % 10 == 5:
+        # a history of timeouts with the retry middleware: bodies that never finish by themselves are ended by their timeout label on
+        # every attempt; when the retries are used up all slots must be free again
+        kn = dict(KNOBS, retry={"count": 3, "label": True, "no_result_on_retry": True}, p_timeout=0.6, p_sync=0.0)
+    s = gen_worker_script(rs, tier_knobs(kn, tier, index))
+    if index % 10 == 5:
+        from sim.rng import stream as _stream
+        rr = _stream(rs, "c03never")
+        for m in s["messages"]:
+            if m.get("timeout") is not None and rr.random() < 0.5:
+                for a in m.get("attempts", []):
+                    a["out"] = ["never"]
     if index % 10 == 7 and s["config"]["workers"] == 1:
         # programmatic entry point: taskiq.api.run_receiver_task reconnects after broker.listen() fails
         from sim.rng import stream
